@@ -373,6 +373,10 @@ func (r *Realm) parseLines(name string, lines []string) (err error) {
 				continue
 			}
 		}
+		if c > 0 {
+			// Inside a nested block: its relations belong to that subsection, not to the realm
+			continue
+		}
 
 		p := strings.Split(line, "=")
 		if len(p) < 2 {
